@@ -68,6 +68,15 @@ def judge(code, R, label, P=None):
         return BAD("construct-raises", "transaction constructs", exc(e), clause="construct")
     from pycoin.coins.exceptions import ValidationFailureError
     n = 1
+    # a transaction of the Bitcoin class (the base of every other coin class) is checked first: limits must belong to the
+    # class of the transaction being checked, not to whichever class was checked first (state kept on the classes)
+    for oc in ("BTC",):
+        if oc != code:
+            try:
+                OT = tx_class(oc)
+                OT(1, [OT.TxIn(b"\x07" * 32, 0, b"")], [OT.TxOut(1, b"\x51")]).check()
+            except Exception:
+                pass
     try:
         P.check()
         impl = "accept"
